@@ -121,6 +121,24 @@ Section Stages.
   Definition reset_batches (h c hh : N) (s : N) (d : db) : list batch :=
     thread (skipn (reset_done s) (reset_steps h c hh)) d.
 
+  (* ---- the two writers of Reset ----
+     resetStateInternal does not write its stage batches itself: it hands them, one by one, to a helper goroutine
+     over an UNBUFFERED channel (persistCh); the helper persists them in the order received.  One operation goes
+     to the database directly from Reset's own goroutine: the SeekGC over the old contract storage prefix
+     (step 5 of [reset_steps]); it is issued after the fifth batch has been handed over and before the last
+     batch is even produced.  What the helper has received it may not have persisted yet.
+       writers:   queue  = steps 0,1,2,3,4,6 (background, FIFO)        direct = step 5
+       order at the store when j queue entries land before the direct operation: [reset_order l j]
+     Happens-before edges the code enforces: FIFO of the queue; direct before queue entry 5 (program order: the
+     last batch is produced after SeekGC returns); and hand-over i completes only when the helper has TAKEN it,
+     i.e. has finished persisting entry i-1 - with a channel of capacity cap, entry i-1-cap.  The direct
+     operation follows hand-over 4: at least 4 - cap entries have landed. *)
+  Definition reset_queue (l : list batch) : list batch := firstn 5 l ++ skipn 6 l.
+  Definition reset_direct (l : list batch) : batch := nth 5 l [].
+  Definition reset_order (l : list batch) (j : nat) : list batch :=
+    firstn j (reset_queue l) ++ reset_direct l :: skipn j (reset_queue l).
+  Definition reset_admissible (cap j : nat) : bool := (4 - cap <=? j)%nat && (j <=? 5)%nat.
+
   (* ================= state jump to p ================= *)
   Definition jump_b0 (_ : db) : batch := [marker false 2].
   Definition jump_b1 (d : db) : batch :=
@@ -198,3 +216,4 @@ End Stages.
 
 Arguments Up {St Rt}. Arguments Broken {St Rt}. Arguments Stuck {St Rt}. Arguments Fail {St Rt}.
 Arguments present {St Rt}. Arguments scan {St Rt}. Arguments thread {St Rt}.
+Arguments reset_queue {St Rt}. Arguments reset_direct {St Rt}. Arguments reset_order {St Rt}.
